@@ -356,6 +356,47 @@ def mk_serials_irrelevant(name, args=(), truncated_model=None, moved_atom=None):
     return body
 
 
+def mk_serials_in_text(name, two_models=False):
+    def body(ctx):
+        """as O3, the numbering written into the serial column of the file itself (so that the record reader sees it): serials
+        that repeat (all equal, all zero, restarting in every residue, wrapping round after 10), descend, or lie in the hybrid-36 range"""
+        from . import micro as M
+        import propka.hybrid36 as HY
+        text = M.text(name)
+        if two_models:
+            text = M.models(text, text)
+        scheme = ctx.choice('numbering', ['all-equal', 'all-zero', 'restart-per-residue', 'wrapped-after-10', 'descending', 'hybrid36-range', 'blank'])
+        base = M.run(text)
+        lines, i, last_res, k = [], 0, None, 0
+        n_atoms = len([l for l in text.split('\n') if l[:6] in ('ATOM  ', 'HETATM')])
+        for l in text.split('\n'):
+            if l[:6] in ('ATOM  ', 'HETATM'):
+                res = l[17:27]
+                k = k + 1 if res == last_res else 1
+                last_res = res
+                v = {'all-equal': '    7', 'all-zero': '    0', 'restart-per-residue': '%5d' % k, 'wrapped-after-10': '%5d' % (i % 10), 'descending': '%5d' % (n_atoms - i),
+                     'hybrid36-range': 'A%04d' % i, 'blank': None}[scheme]
+                if v is None:
+                    v = '     '
+                l = l[:6] + v + l[11:]
+                i += 1
+            if l:
+                lines.append(l)
+        try:
+            other = M.run('\n'.join(lines) + '\n')
+        except ValueError as e:
+            # a blank serial field is not a number: rejecting the file is within the statement (nothing is predicted)
+            ctx.claim('only-a-blank-serial-may-be-rejected', scheme == 'blank', detail=repr(e))
+            return
+        ctx.claim('same-conformations', list(base.conformation_names) == list(other.conformation_names))
+        for conf in list(base.conformation_names) + ['AVR']:
+            ctx.claim('same-atoms[%s]' % conf, sorted(M.akey(a) for a in base.conformations[conf].atoms) == sorted(M.akey(a) for a in other.conformations[conf].atoms),
+                      detail='%d vs %d atoms' % (len(base.conformations[conf].atoms), len(other.conformations[conf].atoms)))
+            M.compare_heavy(ctx, 'serials', base, other, conf)
+            M.compare_results(ctx, 'serials', base, other, conf)
+    return body
+
+
 def obligations(tier):
     code = ['propka/hybrid36.py:decode']
     obs = [Obligation('O0-int-model-validation', mk_int_model(2 if tier == 'quick' else 3), code=['symx/sstr.py:int_parse_model (trusted model of int())'],
@@ -368,6 +409,11 @@ def obligations(tier):
                               claim_doc='decode(standard encoding of v) == v', max_paths=2000))
     obs.append(Obligation('O1-monotone', o_monotone, code=code, bounds='two values in the full range of widths 2 and 3',
                           claim_doc='v1 < v2 => decode(enc v1) < decode(enc v2)', max_paths=4000))
+    for name, two in ([('pair_GLU_ARG_TYR', False), ('complex_ZN', True)] if tier == 'quick' else [('pair_GLU_ARG_TYR', False), ('complex_ZN', True), ('complex_MTX', False), ('pep8', True), ('pair_CYS_CYS_bridge', False)]):
+        obs.append(Obligation('O3-serials-in-the-text[%s%s]' % (name, ',two MODELs' if two else ''), mk_serials_in_text(name, two),
+                              code=['propka/input.py:get_atom_lines_from_pdb', 'propka/atom.py:Atom.set_properties (numb)', 'propka/hybrid36.py:decode', 'propka/run.py:single (whole pipeline)'],
+                              bounds='%s%s with its serial column rewritten in the text by 7 schemes (all equal, all zero, restarting in every residue, wrapping after 10, descending, hybrid-36 range, blank)' % (name, ' as two MODELs' if two else ''),
+                              kind='table-check', claim_doc='atoms, bonds, groups, pKa values and determinants identical to the run on the file as numbered (a blank serial field may be rejected)', max_paths=50))
     for name in (['lig_MTX', 'lig_MTX_B', 'lig_KNI', 'pair_GLU_ARG_TYR'] if tier == 'quick' else ['lig_MTX', 'lig_MTX_B', 'lig_KNI', 'pair_GLU_ARG_TYR', 'pep8', 'tri_HIS', 'tri_TRP', 'pair_CYS_CYS_bridge']):
         obs.append(Obligation('O3-serials-never-influence[%s]' % name, mk_serials_irrelevant(name),
                               code=['propka/atom.py:Atom.set_properties (numb)', 'propka/run.py:single (whole pipeline: bonding, ligand typing, ring search, groups, pKa)',
